@@ -106,6 +106,8 @@ class Model:
             if op in ("Shl", "Shr"):
                 return (a << b) if op == "Shl" else (a >> b)
             raise Shape("operator %s in `%s`" % (op, show(e)))
+        if k == "proj" and tuple(e[2]) == (0,) and isinstance(e[1], tuple) and e[1][0] == "bin":
+            return self.ev(e[1], args)            # the value half of a checked operation
         if k == "proj" and e[2] == (1,) and isinstance(e[1], tuple) and e[1][0] == "bin":
             # overflow flag of a checked operation / zero test of a division
             op = e[1][1]
